@@ -8,6 +8,7 @@ package main
 import (
 	"context"
 	"encoding/binary"
+	"encoding/json"
 	"fmt"
 	"io"
 	"os"
@@ -688,18 +689,16 @@ func c17Judge(rec *c17FileRec, wire *c17Wire, completed bool) (finds []c17Findin
 				}
 				if wrong {
 					// the re-send is handed out after the verdict marker R; under correct code it is
-					// handed out and written before the end-of-file decision
+					// handed out and written before the end-of-file decision (a re-send that never happens
+					// because the file was acknowledged first is the same finding)
 					v := in.V
-					tvBefore, tvAfterR, avBefore, tvResend := 0, 0, 0, 0
+					tvBefore, tvAfterR, avBefore := 0, 0, 0
 					for _, s := range T[v] {
 						if s < e0 {
 							tvBefore++
 							if s > rSeq {
 								tvAfterR++
 							}
-						}
-						if s > rSeq {
-							tvResend++
 						}
 					}
 					for _, s := range A[v] {
@@ -708,15 +707,12 @@ func c17Judge(rec *c17FileRec, wire *c17Wire, completed bool) (finds []c17Findin
 						}
 					}
 					switch {
-					case tvAfterR == 0 || (!in.bit(v) && tvBefore < 2):
-						add("fileend:before-resend", fmt.Sprintf("end-of-file record emitted after the mismatch verdict for chunk %d was due but before its re-send was handed out (%d hand-outs of that chunk precede the record, %d of them after the verdict was released)", v, tvBefore, tvAfterR))
-					case avBefore < tvBefore:
-						add("fileend:chunks-in-flight", fmt.Sprintf("end-of-file record emitted before the re-sent frame of chunk %d was written", v))
+					case tvAfterR == 0 || (!in.bit(v) && tvBefore < 2) || avBefore < tvBefore:
+						// one key whether the re-send was not yet handed out or handed out but not yet written when the
+						// record was emitted: the hook at the record is not atomic with the decision, the cause is the same
+						add("fileend:before-resend", fmt.Sprintf("end-of-file record emitted after the mismatch verdict for chunk %d was due but before its re-send had gone out (%d hand-outs and %d written frames of that chunk precede the record, %d hand-outs after the verdict was released)", v, tvBefore, avBefore, tvAfterR))
 					default:
 						tags = append(tags, "resend-before-end")
-					}
-					if completed && tvResend == 0 {
-						add("chunk:resend-missing", fmt.Sprintf("chunk %d failed verification but was not handed out again", v))
 					}
 				}
 			} else {
@@ -740,7 +736,7 @@ func c17Judge(rec *c17FileRec, wire *c17Wire, completed bool) (finds []c17Findin
 }
 
 func c17PartA(e *Env) {
-	n := e.Pick(200, 5000)
+	n := e.Pick(600, 5000)
 	traces := c17GenTraces(e, n)
 	lp, err := vk.NewListenerPool(16, 8*time.Second)
 	if err != nil {
@@ -758,7 +754,8 @@ func c17PartA(e *Env) {
 	orders := map[string]int{}
 	tagCount := map[string]int{}
 	timingCount := map[string]int{}
-	files, completed, samples := 0, 0, 0
+	files, completed, samples, plain := 0, 0, 0, 0
+	var senderErrs []string
 	vk.ParallelDo(len(traces), 16, func(i int) {
 		tr := traces[i]
 		res := c17RunTrace(e, lp, tr)
@@ -806,20 +803,51 @@ func c17PartA(e *Env) {
 		if res.Completed {
 			completed++
 		}
-		doSample := samples < 3 && res.Completed
+		interesting := false
+		for _, o := range outs {
+			for _, t := range o.Tags {
+				if t == "resend-before-end" || t == "plan-after-first-take" {
+					interesting = true
+				}
+			}
+		}
+		doSample := res.Completed && ((interesting && samples < 3) || plain < 1)
 		if doSample {
-			samples++
+			if interesting {
+				samples++
+			} else {
+				plain++
+			}
 		}
 		mu.Unlock()
 		if doSample {
-			e.R.Sample(map[string]any{"part": "a", "trace_id": tr.ID, "streams": tr.Streams, "chunk_size": tr.CS, "jitter_us": tr.JitterUs, "files": outs, "dur_ms": res.DurMs})
+			c17Sample("a", map[string]any{"part": "a", "trace_id": tr.ID, "streams": tr.Streams, "chunk_size": tr.CS, "jitter_us": tr.JitterUs, "files": outs, "dur_ms": res.DurMs})
 		}
 		if !res.Completed && nviol == 0 {
-			e.R.Inconcl(fmt.Sprintf("trace %d did not complete (hung=%v send_err=%v recv_err=%q) and the oracle found nothing in its hook log", tr.ID, res.Hung, res.SendErr, res.Wire.recvErr))
-			e.R.Count("a_trace_incomplete")
+			dbg, _ := json.Marshal(outs)
+			res.Wire.mu.Lock()
+			ws := fmt.Sprintf("begins=%v ends=%v acked=%v got=%v reqs=%v", res.Wire.begins, res.Wire.ends, res.Wire.acked, res.Wire.got, res.Wire.reqs)
+			recvErr := res.Wire.recvErr
+			res.Wire.mu.Unlock()
+			msg := fmt.Sprintf("trace %d did not complete (hung=%v send_err=%v recv_err=%q) and the oracle found nothing in its hook log; files=%s wire: %s", tr.ID, res.Hung, res.SendErr, recvErr, dbg, ws)
+			if res.Hung {
+				// watchdog: never a verdict of this property
+				e.R.Inconcl(msg)
+				e.R.Count("a_trace_watchdog")
+			} else {
+				// the sender gave up with an error: no exactly-once verdict for the unfinished files
+				e.R.NoVerd()
+				e.R.Count("a_trace_sender_error")
+				mu.Lock()
+				if len(senderErrs) < 5 {
+					senderErrs = append(senderErrs, msg)
+				}
+				mu.Unlock()
+			}
 		}
 	})
 	e.R.SetExtra("a_traces", len(traces))
+	e.R.SetExtra("a_sender_error_samples", senderErrs)
 	e.R.SetExtra("a_traces_completed", completed)
 	e.R.SetExtra("a_files_judged", files)
 	e.R.SetExtra("a_distinct_event_orders", len(orders))
